@@ -20,7 +20,14 @@ SFNum(par, b) == IF b = 0 THEN 0 ELSE 1 + SFNum(par, par[b])
 RECURSIVE SFAnc(_, _)
 SFAnc(par, b) == IF b = 0 THEN {0} ELSE {b} \cup SFAnc(par, par[b])
 
-SFIsAnc(par, a, b) == a \in SFAnc(par, b)
+(* a is an ancestor of b (or b itself); ids are a topological order, so the  *)
+(* walk towards genesis can stop as soon as it is below a                   *)
+RECURSIVE SFIsAnc(_, _, _)
+SFIsAnc(par, a, b) == IF a = b THEN TRUE ELSE IF b < a \/ b = 0 THEN FALSE ELSE SFIsAnc(par, a, par[b])
+
+(* the k-th ancestor of b *)
+RECURSIVE SFUp(_, _, _)
+SFUp(par, b, k) == IF k <= 0 \/ b = 0 THEN b ELSE SFUp(par, par[b], k - 1)
 
 (* children of b among the blocks K *)
 SFChildren(par, K, b) == {c \in K \ {0} : par[c] = b}
